@@ -159,7 +159,7 @@ def gen_identity_config(rng, for_sessions=False):
         b = su['benchmarks'][-1]
         name = b if isinstance(b, str) else list(b)[0]
         det = {} if isinstance(b, str) else dict(b[name])
-        det['extra_args'] = rng.choice([6, '6', 2.5, True, 0, '0'])
+        det['extra_args'] = rng.choice([6, '6', 2.5, True, 0, '0', '--mode\tfast', 'trailing  ', 'ünï\tcode'])
         su['benchmarks'][-1] = {name: det}
     if rng.random() < 0.3:   # folded scalar with trailing newline
         su = cfg['benchmark_suites'][rng.choice(sorted(cfg['benchmark_suites']))]
@@ -343,7 +343,8 @@ SAFE = ['ms', 'kb', 'total', 'mem', 'alloc rate', 'x%y', '~a', 'Größe', 'ops/s
         'GC time', 'a  b', 'q"x', '', ' lead', 'trail ', '#c', 'L1 d-cache miss/s']
 HOSTILE = [('tab_in_criterion', 'crit', 'me\tm'), ('cr_in_criterion', 'crit', 'me\rm'), ('tab_in_unit', 'unit', 'ms\top'),
            ('cr_in_unit', 'unit', 'ms\r'), ('tab_in_criterion', 'crit', 'total\tx'), ('cr_in_unit', 'unit', '\rms'),
-           ('separator_in_run_columns', 'cols', 'folded args\n'), ('separator_in_run_columns', 'cols', 'a\tb')]
+           ('newline_in_run_columns', 'cols', 'folded args\n'), ('tab_in_run_columns', 'cols', 'a\tb'),
+           ('tab_in_run_columns', 'cols', '--mode\tfast')]
 
 
 UNREACHABLE = {'cr_in_unit'}
@@ -485,8 +486,10 @@ def classify_line(c):
             return 'cr_in_' + name
         if '\n' in text:
             return 'lf_in_' + name
-    if any(ch in col for col in c['cols'] for ch in '\t\r\n'):
-        return 'separator_in_run_columns'
+    if any(ch in col for col in c['cols'] for ch in '\r\n'):
+        return 'newline_in_run_columns'
+    if any('\t' in col for col in c['cols']):
+        return 'tab_in_run_columns'
     return 'other'
 
 
@@ -528,18 +531,22 @@ def session_check(ck, scens, tag):
         if scen.get('hostile'):
             inp['hostile'], inp['hostile_applied'] = scen['hostile'], True
         klass = scen.get('class') or history_class(scen['cfg'])
-        if klass != 'separator_in_run_columns' and scen.get('hostile'):
+        if scen.get('hostile'):
             klass = 'separator_in_criterion'
         judge_history(ck, inp, probe, outputs, observed, ans, klass)
 
 
+def run_sep_class(run):
+    """a failure is attributed to the run it concerns: only a run whose own identifying columns contain a line
+    break (or a tab) belongs to that class -- other runs of the same history do not"""
+    if any(ch in col for col in run['cols'] for ch in '\n\r'):
+        return 'newline_in_run_columns'
+    if any('\t' in col for col in run['cols']):
+        return 'tab_in_run_columns'
+    return None
+
+
 def history_class(cfg):
-    for su in cfg['benchmark_suites'].values():
-        for b in su['benchmarks']:
-            if isinstance(b, dict):
-                for det in b.values():
-                    if any(ch in str(det.get('extra_args', '')) for ch in '\n\t\r'):
-                        return 'separator_in_run_columns'
     for su in cfg['benchmark_suites'].values():
         if any('~' in str(v) for v in (su.get('env') or {}).values()):
             return 'env_tilde'
@@ -607,23 +614,26 @@ def judge_history(ck, inp, probe, outputs, observed, ans, klass=None):
                 if got[0] != want_m:
                     ck.oracle_fail('progress_restored', sinp, {'run': r['cmd'], 'completed_invocations': got[0],
                                                                'recorded': want_m},
-                                   {'class': klass, 'what': 'invocations'})
+                                   {'class': run_sep_class(r) or klass, 'what': 'invocations'})
                 elif got[1] != want_s:
                     ck.oracle_fail('progress_restored', sinp, {'run': r['cmd'], 'samples': got[1], 'recorded': want_s,
                                                                'files': len(r['files'])},
-                                   {'class': 'run_in_%d_files' % len(r['files']) if len(r['files']) > 1 else klass,
+                                   {'class': ('run_in_%d_files' % len(r['files']) if len(r['files']) > 1 and
+                                              got[1] == want_s * len(r['files']) else run_sep_class(r) or klass),
                                     'what': 'samples'})
         # every measurement recorded by earlier sessions reloads with the same invocation, iteration,
         # criterion, unit and value (6 decimals) -- per criterion, not only the totals
-        if getattr(ob, 'reloaded', None) is not None and klass != 'separator_in_run_columns' and not ob.crash \
-                and ob.status != 'ui_error':
+        if getattr(ob, 'reloaded', None) is not None and not ob.crash and ob.status != 'ui_error':
             want = set()
             for i, invs in recorded.items():
+                if run_sep_class(probe.runs[i]) == 'newline_in_run_columns':
+                    continue      # known at line level (C07-newline-in-run-columns): nothing of such a run reloads
                 for inv in invs:
                     for j, msx in enumerate(outputs[i][inv - 1]):
                         for (crit, unit, v) in msx:
                             want.add((i, inv, j + 1, crit, unit, float(c06.fmt6_independent(v))))
-            got = set((k, a, b, c, u, round(float(v), 6)) for (k, a, b, c, u, v) in ob.reloaded)
+            got = set((k, a, b, c, u, round(float(v), 6)) for (k, a, b, c, u, v) in ob.reloaded
+                      if k is None or run_sep_class(probe.runs[k]) != 'newline_in_run_columns')
             want = set((k, a, b, c, u, round(v, 6)) for (k, a, b, c, u, v) in want)
             if got != want:
                 missing = sorted(want - got, key=str)[:4]
@@ -652,7 +662,7 @@ def judge_history(ck, inp, probe, outputs, observed, ans, klass=None):
             if s[2] in recorded.get(s[1], set()):
                 ck.oracle_fail('recognised', sinp, {'run': probe.runs[s[1]]['cmd'], 'invocation': s[2],
                                                     'already_recorded': sorted(recorded[s[1]])},
-                               {'class': klass, 'level': 'session'})
+                               {'class': run_sep_class(probe.runs[s[1]]) or klass, 'level': 'session'})
                 break
         for n, s in enumerate(starts):
             if s[0] != 'r' or (ob.status == 'aborted' and n == last):
@@ -828,6 +838,89 @@ def parallel_ids_slice(ck, n):
                          'bench_ids': list(range(len(set(r['bench'] for r in probe.runs))))}, TH_FILE)
 
 
+# ------------------------------------------------------------------ F other processes, other hash seeds
+CLI_HARNESS = """#!/bin/sh
+echo "$*" >> "%(dir)s/starts.log"
+echo "$1: mem: 12kb"
+echo "$1: iterations=1 runtime: 5.5ms"
+"""
+
+
+def cross_process_histories(ck, n):
+    """Sessions of one experiment in *different processes* with different PYTHONHASHSEED values over one data
+    file (real `rebench` children, a /bin/sh harness): whatever ReBench builds from a set or from dict order
+    -- tag lists, env maps, the run set -- must not enter the recorded identity in an order that another
+    process would not reproduce.  Oracle: the second and third process start nothing, leave the file as it
+    is, do not crash; ids consecutive."""
+    import subprocess
+    import sys
+    rng = ck.rng
+    for idx in range(n):
+        wd = os.path.join(ck.scratch, 'xproc%d' % idx)
+        os.makedirs(wd)
+        harness = os.path.join(wd, 'harness.sh')
+        with open(harness, 'w') as f:
+            f.write(CLI_HARNESS % {'dir': wd})
+        os.chmod(harness, 0o755)
+        tags = rng.sample(['zeta', 'alpha', 'Mid', 'beta', 'omega', 't1', 'T2', 'x'], rng.randint(2, 5))
+        suite = {'gauge_adapter': 'RebenchLog', 'command': '%(benchmark)s %(tag)s %(input)s %(invocation)s',
+                 'benchmarks': rng.sample(['Bq', 'Ba', 'Bz', 'Bm'], rng.randint(1, 3)), 'tags': tags,
+                 'input_sizes': rng.choice([['s', 'l', 'm'], [1, 2], ['only']]),
+                 'env': dict(rng.sample([('ZED', 'z'), ('ALPHA', 'a'), ('MID', 'm'), ('beta', 'b')], rng.randint(2, 4)))}
+        if rng.random() < 0.5:
+            suite['variable_values'] = rng.sample(['v3', 'v1', 'v2', 'va'], rng.randint(2, 3))
+        cfg = {'default_experiment': 'all', 'default_data_file': 'x.data', 'runs': {'invocations': 1},
+               'benchmark_suites': {'S': suite}, 'executors': {'E': {'path': wd, 'executable': 'harness.sh'}},
+               'experiments': {'X': {'suites': ['S'], 'executions': ['E']}}}
+        conf = drive.write_config(wd, cfg)
+        seeds = rng.sample(['0', '1', '2', '7', '42', '123', '999', '31337'], 3)
+        results = []
+        for hs in seeds:
+            env = dict(os.environ, PYTHONPATH=lib.REPO, PYTHONDONTWRITEBYTECODE='1', PYTHONHASHSEED=hs)
+            launcher = ('import sys; sys.argv=["rebench","-D",%r]; from rebench.rebench import main_func; '
+                        'sys.exit(main_func())' % conf)
+            p = subprocess.Popen([sys.executable, '-B', '-c', launcher], cwd=wd, env=env,
+                                 stdout=subprocess.PIPE, stderr=subprocess.PIPE)
+            try:
+                out, err = p.communicate(timeout=120)
+            except subprocess.TimeoutExpired:
+                p.kill()
+                p.communicate()
+                raise lib.InfraError('CLI session hung')
+            starts = dp.read_text(os.path.join(wd, 'starts.log')).count('\n')
+            results.append({'hashseed': hs, 'exit': p.returncode, 'starts_total': starts,
+                            'traceback': 'Traceback' in err.decode('utf-8', 'replace'),
+                            'stderr_tail': err.decode('utf-8', 'replace')[-300:],
+                            'text': dp.read_text(os.path.join(wd, 'x.data'))})
+            ck.impl_traces += 1
+        n_runs = len(suite['benchmarks']) * len(tags) * len(suite['input_sizes']) * len(suite.get('variable_values', [1]))
+        inp = {'cross_process': True, 'cfg': cfg, 'hash_seeds': seeds, 'runs': n_runs}
+        ck.count('cross-process:tags=%d' % len(tags))
+        ck.case(nontrivial_key=('xproc', idx, tuple(seeds)), sample={'tags': tags, 'hash_seeds': seeds,
+                                                                     'exits': [r['exit'] for r in results]})
+        sig = {'class': 'other_process_other_hash_seed'}
+        first = results[0]
+        if first['traceback'] or first['starts_total'] != n_runs:
+            ck.oracle_fail('no_crash' if first['traceback'] else 'first_session_runs_everything', inp,
+                           {k: first[k] for k in ('exit', 'starts_total', 'stderr_tail')}, dict(sig, level='session'))
+            continue
+        for r, prev in zip(results[1:], results[:-1]):
+            d = {'hashseed': r['hashseed'], 'exit': r['exit'], 'new_starts': r['starts_total'] - prev['starts_total'],
+                 'stderr_tail': r['stderr_tail'] if r['traceback'] else ''}
+            if r['traceback']:
+                ck.oracle_fail('no_crash', inp, d, dict(sig, level='session'))
+            elif r['starts_total'] != prev['starts_total']:
+                ck.oracle_fail('recognised', inp, d, dict(sig, level='session'))
+            elif r['text'] != prev['text']:
+                ck.oracle_fail('file_unchanged_by_rerun', inp, d, dict(sig, level='session'))
+        rids = [int(l[len('# run_id: '):].split('=', 1)[0]) for l in results[-1]['text'].split('\n')
+                if l.startswith('# run_id: ')]
+        if rids != list(range(len(rids))):
+            ck.oracle_fail('ids_consecutive', inp, {'run_ids': rids}, sig)
+        import shutil
+        shutil.rmtree(wd, ignore_errors=True)
+
+
 def run(ck):
     quick = ck.tier == 'quick'
     ck.rule = ('A: configured keys of generated configurations (env maps with ~ % unicode, mixed-type variable lists, '
@@ -848,6 +941,7 @@ def run(ck):
     identity_check(ck, 40 if quick else 600)
     line_check(ck, 600 if quick else 20000)
     parallel_ids_slice(ck, 5 if quick else 60)
+    cross_process_histories(ck, 3 if quick else 40)
     n_hist = 60 if quick else 1500
     batch = []
     for i in range(n_hist):
@@ -861,7 +955,10 @@ def run(ck):
 
 def replay(ck, data):
     inp = data['input']
-    if inp.get('parallel_ids'):
+    if inp.get('cross_process'):
+        ck.notes.append('cross-process replays re-run the slice from the seed')
+        cross_process_histories(ck, 3)
+    elif inp.get('parallel_ids'):
         ck.notes.append('parallel replays re-run the slice from the seed')
         parallel_ids_slice(ck, 5)
     elif 'line' in inp:
